@@ -11,7 +11,7 @@ MUTANTS = [
     # name, file, old, new, checks, expect_detected
     ("gather_by_completion_order", U, "                results[index] = future.result()", "                results[len([r for r in results if r is not None])] = future.result()", ["C04", "C20", "C03"], True),
     ("submission_index_off", U, "            executor.submit(func, *args): i for i, args in enumerate(arg_list)", "            executor.submit(func, *args): i for i, args in enumerate(reversed(arg_list))", ["C04", "C20"], True),
-    ("swallow_task_exception", U, "                print(f\"Item at index {index} generated an exception: {exc}\")\n                raise", "                print(f\"Item at index {index} generated an exception: {exc}\")\n                results[index] = None", ["C04", "C20", "C03"], True),
+    ("swallow_task_exception_then_TypeError", U, "                print(f\"Item at index {index} generated an exception: {exc}\")\n                raise", "                print(f\"Item at index {index} generated an exception: {exc}\")\n                results[index] = None", ["C04", "C20", "C03"], True),
     ("pointer_index_ignores_first_chunk", C, "                    pointer = self._group_key_pointers[first_chunk_in + j]", "                    pointer = self._group_key_pointers[j]", ["C03"], True),
     ("prefix_rule_ge", C, "        use_monotonic_piece = cutoff > len(group_key) / 4", "        use_monotonic_piece = cutoff >= len(group_key) / 4", ["C03"], False),
     ("monotonic_le", F, "        if x < prev or x != x:", "        if x <= prev or x != x:", ["C03"], False),
@@ -21,12 +21,12 @@ MUTANTS = [
     ("merge_count_not_accumulated", N, "        combined_count = combined_count + count\n\n    return combined, combined_count", "        combined_count = count\n\n    return combined, combined_count", ["C04", "C03"], True),
     ("bool_mask_split_not_positions", N, "        if mask.dtype.kind == \"b\":\n            mask = mask.nonzero()[0]\n        chunked_args = (", "        chunked_args = (", ["C04"], True),
     ("nanops_second_stage_count", NO, "        chunk_reduction = \"sum\"\n    elif \"sum\" in reduce_func_name:", "        chunk_reduction = \"count\"\n    elif \"sum\" in reduce_func_name:", ["C20"], True),
-    ("nanops_first_non_null_start", NO, "            start = loc + 1", "            start = loc", ["C20"], True),
-    ("nanops_split_plus_one", NO, "            list(zip(np.array_split(arr, n_threads))),", "            list(zip(np.array_split(arr, n_threads + 1))),", ["C20"], False),
+    ("nanops_first_non_null_start", NO, "            start = loc + 1", "            start = loc", ["C20"], False),
+    ("nanops_split_plus_one", NO, "            list(zip(np.array_split(arr, n_threads))),", "            list(zip(np.array_split(arr, n_threads + 1))),", ["C20"], True),
     ("pointers_not_cleared_after_unify", C, "                chunks.append(unified)\n            self._group_key_pointers = None", "                chunks.append(unified)", ["C13", "C03"], True),
     ("ikey_count_cached_under_mask", C, "        return self.count_ikey()\n", "        return self.count_ikey(getattr(self, \"_last_mask\", None))\n", ["C13"], False),
     ("index_sorted_flag_stale", C, "            self._index_is_sorted = True  # not necessary to sort now", "            self._index_is_sorted = False", ["C03"], False),
-    ("sum_squares_inplace", N, "        values = [v.astype(float) for v in values]", "        values = [np.square(v, out=v) if v.dtype.kind == \"f\" else v.astype(float) ** 1 for v in values]", ["C19"], True),
+    ("cummax_reuses_input_as_target", N, "    target = _build_target_for_groupby(\n        values[0].dtype, \"sum\" if counting else operation, len(group_key)\n    )", "    target = _build_target_for_groupby(\n        values[0].dtype, \"sum\" if counting else operation, len(group_key)\n    )\n    if operation in (\"max\", \"min\") and len(values) == 1 and values[0].flags.writeable and values[0].flags.c_contiguous:\n        target = values[0]  # same dtype and length: save the allocation", ["C19"], True),
     ("slice_mask_written", N, "        values = values[mask]\n        group_key = group_key[mask]\n        mask = None", "        values = values[mask]\n        group_key = group_key[mask]\n        mask = None\n        if isinstance(values, np.ndarray) and values.flags.writeable and values.dtype.kind == \"f\":\n            values[np.isnan(values)] = np.nan", ["C19"], False),
 ]
 
